@@ -7,7 +7,9 @@ import canmatrix.formats
 from lib import frames as F
 
 PID = "C03"
-RULE = ("case = (frame 2..16 bytes; a forest of signals: static signals, a root multiplexer (width 1..8 simple, 2..4 extended), "
+RULE = ("case = (frame 2..16 bytes; a forest of signals: static signals, a root multiplexer (width 1..8 simple, 2..4 extended; like "
+        "the nested ones declared signed in a third of the frames, so that selector bit patterns with the top bit set are negative "
+        "values; API frames then also have groups with negative numbers, encode requests negative selector values), "
         "bound signals with 1..3 inclusive selector ranges, nested multiplexers with pairwise disjoint ranges per parent, "
         "nesting depth 1..3 (thorough: 4); shuffled signal order; built through the DBC reader (SG_ M/m<n>/m<n>M tags + SG_MUL_VAL_) "
         "or through the API for simple frames; payload random or steered along a random root-to-leaf path; for simple frames "
@@ -60,7 +62,9 @@ def gen_tree(rng, simple, depth_max):
 
     w = rng.randint(1, 8) if simple else rng.randint(2, 4)
     w = min(w, 8 * nbytes)
-    root = add("mx0", w, True, None, [], "M", signed=False)
+    # a multiplexer is a signal like any other: it may be declared signed ('-' in the SG_ line, is_signed=True - the default of
+    # Signal() - through the API).  Its selector values with the top bit set are negative then and match no group m<N>.
+    root = add("mx0", w, True, None, [], "M", signed=rng.random() < 0.35)
     for k in range(rng.randint(0, 3)):
         add("st%d" % k, rng.randint(1, 12), False, None, [], None)
     counter = [0]
@@ -98,7 +102,7 @@ def gen_tree(rng, simple, depth_max):
                     rs = [[v, v + 1]]
                 counter[0] += 1
                 cw = rng.randint(2, 3)
-                nd = add("mx%d" % counter[0], cw, True, parent["s"][0], rs, ["mM", rs[0][0]], signed=False)
+                nd = add("mx%d" % counter[0], cw, True, parent["s"][0], rs, ["mM", rs[0][0]], signed=rng.random() < 0.35)
                 if nd is not None:
                     mulvals.append([nd["s"][0], parent["s"][0], rs])
                     children(nd, cw, depth + 1)
@@ -204,6 +208,21 @@ def dress(rng, c):
     return c
 
 
+def negative_groups(rng, nodes):
+    """frames built through the API: Signal(multiplex=<int>) binds a signal to any integer.  Under a signed multiplexer the group
+    numbers at and above 2**(width-1) are never selected by a payload; half of such frames get them as the negative number with
+    the same bit pattern instead (a group that IS selected, by a negative selector value)."""
+    mux = [n for n in nodes if n["mux"]]
+    if len(mux) != 1 or not mux[0]["s"][4] or rng.random() < 0.5:
+        return
+    w = mux[0]["s"][2]
+    for n in nodes:
+        if n["parent"] is not None and n["ranges"][0][0] >= 1 << (w - 1):
+            v = n["ranges"][0][0] - (1 << w)
+            n["ranges"] = [[v, v]]
+            n["tag"] = ["m", v]
+
+
 def phys(scaled, raw):
     return 2 * raw + 1 if scaled else raw
 
@@ -215,12 +234,18 @@ def gen(rng, tier, shard, nshards):
         simple = rng.random() < 0.45
         nbytes, nodes, mulvals = gen_tree(rng, simple, rng.randint(1, dmax))
         src = "api" if (simple and rng.random() < 0.4) else "dbc"
+        if src == "api":
+            negative_groups(rng, nodes)
         d = None
         if simple and rng.random() < 0.6:
             mux = [n for n in nodes if n["mux"]][0]
             w = mux["s"][2]
             used_vals = [n["ranges"][0][0] for n in nodes if n["parent"] is not None]
             sel = rng.choice(used_vals) if (used_vals and rng.random() < 0.7) else rng.randrange(0, 1 << w)
+            if mux["s"][4] and sel >= 1 << (w - 1):
+                # a signed multiplexer: the selector values a request can ask for are those of its raw range; the bit pattern
+                # of a group number beyond it is a negative value (and selects no group of that number)
+                sel -= 1 << w
             d = [[mux["s"][0], sel]]
             for n in nodes:
                 if not n["mux"] and rng.random() < 0.7:
@@ -287,7 +312,11 @@ def build(c):
     for n in c["nodes"]:
         name, start, size, little, signed = n["s"][:5]
         mp = "Multiplexor" if n["mux"] else (n["ranges"][0][0] if n["parent"] is not None else None)
-        sg_ = cm.Signal(name, start_bit=start, size=size, is_little_endian=little, is_signed=signed, multiplex=mp)
+        if signed and (start + size) % 2:
+            # is_signed=True is the default of Signal()
+            sg_ = cm.Signal(name, start_bit=start, size=size, is_little_endian=little, multiplex=mp)
+        else:
+            sg_ = cm.Signal(name, start_bit=start, size=size, is_little_endian=little, is_signed=signed, multiplex=mp)
         scaled = bool((c["size"] + len(c["nodes"])) % 2)
         if scaled:
             sg_.factor, sg_.offset = 2, 1
@@ -341,6 +370,18 @@ def features(case, impl):
     yield "kind=" + ("extended" if ext else "simple")
     nm = sum(1 for n in c["nodes"] if n["mux"])
     yield "multiplexers=%d" % nm
+    muxes = [n for n in c["nodes"] if n["mux"]]
+    roots = [n for n in muxes if n["parent"] is None]
+    if any(n["s"][4] for n in roots):
+        yield "root-multiplexer-signed"
+        if "ok" in impl["dec"] and any(impl["dec"]["ok"].get(n["s"][0], 0) < 0 for n in roots):
+            yield "root-multiplexer-signed-and-negative-in-the-payload"
+        if c["d"] is not None and any(k == roots[0]["s"][0] and v < 0 for k, v in c["d"]):
+            yield "encode-request-with-negative-selector"
+    if any(n["s"][4] for n in muxes if n["parent"] is not None):
+        yield "nested-multiplexer-signed"
+    if any(r[0] < 0 for n in c["nodes"] for r in n["ranges"]):
+        yield "groups-with-negative-number"
     names = [n["s"][0] for n in c["nodes"]]
     if len({x.casefold() for x in names}) < len(names):
         yield "names-differing-only-in-case"
